@@ -1,8 +1,14 @@
 #!/bin/bash
 # usage: tools/seed_matrix.sh [seed ids...]   (default: all of /verif/seeded)
-# For every seeded change: apply it to /repo, run the quick check of its own property (and any
-# extra checks listed in seeded/<id>/also.txt), record which violation keys were reported in
-# seeded/<id>/meta.json ("caught_by") and in seeded/MATRIX.md, then revert /repo.
+# For every seeded change: apply it to the repository copy, rebuild the harness, run the quick check
+# of its own property (and any extra checks listed in seeded/<id>/also.txt), record which violation
+# keys were reported in seeded/<id>/meta.json ("caught_by") and in seeded/MATRIX.md, then revert.
+# Environment: MATRIX_REPO (default /repo), MATRIX_HARNESS (default /verif/harness; a copy whose
+# Cargo.toml points at MATRIX_REPO may be used so that the run is independent of ongoing edits),
+# MATRIX_BIN (default /verif/.target/release/vcheck).
+REPO=${MATRIX_REPO:-/repo}
+HARNESS=${MATRIX_HARNESS:-/verif/harness}
+BIN=${MATRIX_BIN:-/verif/.target/release/vcheck}
 cd /verif || exit 2
 out=/verif/seeded/MATRIX.md
 [ $# -eq 0 ] && { echo "| seed | check | result | first keys |" > $out; echo "|---|---|---|---|" >> $out; }
@@ -10,12 +16,16 @@ for d in ${@:-$(ls seeded | grep -v MATRIX)}; do
   [ -f seeded/$d/patch.diff ] || continue
   prop=$(python3 -c "import json;print(json.load(open('seeded/$d/meta.json'))['property'])")
   checks="$prop"; [ -f seeded/$d/also.txt ] && checks="$checks $(cat seeded/$d/also.txt)"
-  cd /repo; git diff --quiet || { echo "/repo dirty"; exit 2; }
+  cd $REPO; git diff --quiet || { echo "$REPO dirty"; exit 2; }
   git apply /verif/seeded/$d/patch.diff || { echo "| $d | - | patch does not apply | |" >> $out; cd /verif; continue; }
+  if ! (cd $HARNESS && CARGO_NET_OFFLINE=true cargo build --release --quiet 2>/dev/null); then
+    echo "| $d | - | harness does not build against the change | |" >> $out
+    cd $REPO && git checkout -q -- . ; cd /verif; continue
+  fi
   cd /verif
   caught="[]"
   for c in $checks; do
-    log=$(./check $c quick 2>&1)
+    log=$($BIN $c quick 2>&1)
     n=$(echo "$log" | grep -c "^VIOLATION")
     keys=$(echo "$log" | grep -o "key=[^ ]*" | sort -u | head -3 | tr '\n' ' ')
     res="missed"; [ "$n" -gt 0 ] && res="caught ($n)"
@@ -26,11 +36,11 @@ for d in ${@:-$(ls seeded | grep -v MATRIX)}; do
 import json,sys
 d,c=sys.argv[1],json.loads(sys.argv[2])
 p=f'/verif/seeded/{d}/meta.json'
-m=json.load(open(p)); m['caught_by']=c; m['ran']='tools/seed_matrix.sh: git -C /repo apply patch.diff; ./check <ID> quick; git -C /repo checkout -- .'
+m=json.load(open(p)); m['caught_by']=c; m['ran']='tools/seed_matrix.sh: git apply patch.diff to the repository; rebuild the harness; vcheck <ID> quick; git checkout -- .'
 json.dump(m,open(p,'w'),indent=1)
 PY
-  cd /repo && git checkout -q -- . && cd /verif
+  cd $REPO && git checkout -q -- . && cd /verif
 done
-(cd /verif/harness && CARGO_NET_OFFLINE=true cargo build --release --quiet 2>/dev/null)
-git checkout -q -- evidence 2>/dev/null
+(cd $HARNESS && CARGO_NET_OFFLINE=true cargo build --release --quiet 2>/dev/null)
+[ "$REPO" = "/repo" ] && git checkout -q -- evidence 2>/dev/null
 echo done
